@@ -74,7 +74,8 @@ def _run_job(job):
 def concrete_batch(harness, params, assignments, timeout=1800):
     """Run assignments through the harness in concrete mode in a fresh *uninstrumented* interpreter."""
     env = dict(os.environ)
-    env["PYTHONPATH"] = HERE + os.pathsep + os.path.join(HERE, ".deps")
+    env["PYTHONPATH"] = os.pathsep.join(([os.environ["VERIF_REPO"]] if os.environ.get("VERIF_REPO") else []) +
+                                        [HERE, os.path.join(HERE, ".deps")])
     env["PYTHONDONTWRITEBYTECODE"] = "1"
     env.pop("SYMX_INSTRUMENT", None)
     p = subprocess.run([PY, "-m", "vlib.replay", "--batch"], input=json.dumps(
